@@ -250,6 +250,8 @@ def new_functions(fns, ref):
             continue
         if n in ref or rec.get("bkind") != "fn" or rec.get("auto_derived"):
             continue
+        if n.endswith(" as core::clone::Clone>::clone") or n.endswith(" as core::clone::Clone>::clone_from"):
+            continue          # a Clone impl stays a call of Clone::clone for the rules (its body is judged where the type's clone matters, C12.R3)
         if rec.get("defkind") not in ("Fn", "AssocFn") or "{closure" in n or "promoted[" in n:
             continue
         if not (n.startswith("lace::") or n.startswith("bin::")):
